@@ -716,7 +716,9 @@ pub fn c11(progs: &[Prog], decls: &Decls, max_sym: u32, extra_cb: usize) -> Enum
         crate::e3::nth_string(&C11_SIGMA, i, &mut tmp);
         lines.push(tmp.clone());
     }
-    let max_cb = (max_sym as usize) * 2 + extra_cb;
+    // programs with long names get buffers (and direct-call buffer lengths) up to the longest name + 2
+    let longest = list.iter().flat_map(|(_, n)| n.iter().map(|x| x.len())).max().unwrap_or(0);
+    let max_cb = (max_sym as usize) * 2 + extra_cb.max(longest + 2);
     let bases: Vec<Sess> = (0..=max_cb).map(|cb| new_sess(cb, 0, PROMPT, false)).collect();
     let help_candidate = if cfg!(feature = "help") { Some(true) } else { None };
     let mut out = list
@@ -725,6 +727,7 @@ pub fn c11(progs: &[Prog], decls: &Decls, max_sym: u32, extra_cb: usize) -> Enum
             let mut o = EnumOutcome::default();
             o.stats.hit("programs");
             let spec = CompletionSpec { names: names.clone(), help_candidate };
+            let extra_cb = extra_cb.max(names.iter().map(|x| x.len()).max().unwrap_or(0) + 2);
             // (a) the derived Autocomplete called directly, every word and buffer length
             for w in &lines {
                 if w.is_empty() || w.contains(' ') {
@@ -733,7 +736,7 @@ pub fn c11(progs: &[Prog], decls: &Decls, max_sym: u32, extra_cb: usize) -> Enum
                 let cands: Vec<&str> = names.iter().map(|s| s.as_str()).filter(|n| n.starts_with(w.as_str())).collect();
                 let conts: Vec<&str> = cands.iter().map(|n| &n[w.len()..]).collect();
                 let ext = common_prefix(&conts);
-                for bl in 0..=6usize {
+                for bl in 0..=extra_cb {
                     o.evaluations += 1;
                     let mut buf = vec![0u8; bl];
                     let r = std::panic::catch_unwind(std::panic::AssertUnwindSafe(|| (prog.complete)(w, &mut buf)));
